@@ -2362,6 +2362,8 @@ struct evrrul_s {
 	echs_scale_t cal;
 	/* proto-offset */
 	int pof;
+	/* most recent instant put into the cache after zone correction */
+	echs_instant_t lst;
 
 	/* sequence counter */
 	size_t seq;
@@ -2469,6 +2471,7 @@ refill(struct evrrul_s *restrict strm)
 	struct rrulsp_s *restrict rr = &strm->rrul;
 
 	assert(rr->freq > FREQ_NONE);
+again:
 	if (UNLIKELY(echs_nul_instant_p(strm->e.from))) {
 		return 0UL;
 	} else if (UNLIKELY(!rr->count)) {
@@ -2546,6 +2549,24 @@ refill(struct evrrul_s *restrict strm)
 	}
 	/* otherwise sort the array, just in case */
 	echs_instant_sort(strm->cch, strm->ncch);
+	if (strm->zon) {
+		/* wall-clock times in the gap of a zone transition are
+		 * corrected onto instants we have handed out already,
+		 * keep the stream strictly increasing */
+		size_t j = 0U;
+
+		for (size_t i = 0U; i < strm->ncch; i++) {
+			if (echs_instant_lt_p(strm->lst, strm->cch[i])) {
+				strm->cch[j + GRP_CCH_OFF] =
+					strm->cch[i + GRP_CCH_OFF];
+				strm->lst = strm->cch[j++] = strm->cch[i];
+			}
+		}
+		if (UNLIKELY(!(strm->ncch = j))) {
+			/* all of them in the gap */
+			goto again;
+		}
+	}
 	return strm->ncch;
 }
 
